@@ -17,6 +17,7 @@ import YashModel.Kernel.Step
 import YashModel.Kernel.Signal
 import YashModel.Kernel.SigStep
 import YashModel.Kernel.Fork
+import YashModel.Kernel.Symlink
 open YashModel YashModel.Kernel YashModel.Proto
 
 def octDigits : Nat → Nat → List Char
@@ -334,8 +335,72 @@ def runLine (line : String) : String :=
 
 end XDrv
 
+/-! ## link cases: `L <kind>; stat p; lstat p; openr p; openw p; opena p; openc p; openx p; ls p; cd p; cwd`
+
+  evaluated on the initial tree plus the links that exist beforehand, by `Kernel/Symlink.lean` (`lwalk`, Linux
+  budget 40).  Only `cd` has an effect the later operations see (creating opens come last in a case). -/
+
+namespace LDrv
+
+def links : Links := [(["lnkf"], ["f1"]), (["lnkd"], ["d1"]), (["lnkloop"], ["lnkloop"]), (["lnkbad"], ["nofile"])]
+
+def fuel : Nat := 200
+def budget : Nat := 40
+
+def showKind : LKind → String
+  | .missing => "ENOENT" | .reg => "=reg" | .dir => "=dir" | .lnk => "=lnk"
+
+def openObs (cwd : Path) (comps : List String) (f : Flags) (writable : Bool) : String :=
+  match lopenTarget initTree links f fuel budget cwd comps with
+  | .error e => e.name
+  | .ok p =>
+    match openOutcome (existing initTree p) writable f with
+    | .eexist => "EEXIST" | .eisdir => "EISDIR" | .enotdir => "ENOTDIR" | .enoent => "ENOENT"
+    | _ => "ok"
+
+def lstep (cwd : Path) (t : String) : Path × String :=
+  match words t with
+  | ["stat", p] => (cwd, match lstatKind initTree links true fuel budget cwd (parsePath p) with
+      | .ok k => showKind k | .error e => e.name)
+  | ["lstat", p] => (cwd, match lstatKind initTree links false fuel budget cwd (parsePath p) with
+      | .ok k => showKind k | .error e => e.name)
+  | ["openr", p] => (cwd, openObs cwd (parsePath p) {} false)
+  | ["openw", p] => (cwd, openObs cwd (parsePath p) {} true)
+  | ["opena", p] => (cwd, openObs cwd (parsePath p) { append := true } true)
+  | ["openc", p] => (cwd, openObs cwd (parsePath p) { create := true } true)
+  | ["openx", p] => (cwd, openObs cwd (parsePath p) { create := true, excl := true } true)
+  | ["ls", p] =>
+    (cwd, match lwalk initTree links true fuel budget cwd (parsePath p) with
+      | .error e => e.name
+      | .ok q => match existing initTree q with
+        | .missing => "ENOENT" | .reg => "ENOTDIR"
+        | .dir =>
+          let own := children initTree q
+          let ls := links.filterMap fun (l, _) => if l.dropLast = q then l.getLast? else none
+          let ns := sortStrings (own ++ ls)
+          "=" ++ (if ns.isEmpty then "-" else ",".intercalate ns))
+  | ["cd", p] =>
+    (match lwalk initTree links true fuel budget cwd (parsePath p) with
+      | .error e => (cwd, e.name)
+      | .ok q => match existing initTree q with
+        | .missing => (cwd, "ENOENT") | .reg => (cwd, "ENOTDIR") | .dir => (q, "ok"))
+  | ["cwd"] => (cwd, "=" ++ showPath cwd)
+  | _ => (cwd, "?")
+
+def runLine (line : String) : String :=
+  match splitTrim line ";" with
+  | [] => "?"
+  | _ :: ops =>
+    let r := (ops.filter (· ≠ "")).foldl (fun (acc : Path × List String) t =>
+      let s := lstep acc.1 t
+      (s.1, s.2 :: acc.2)) ([], [])
+    " ".intercalate r.2.reverse
+
+end LDrv
+
 def runLine (line : String) : String :=
   if line.startsWith "S " then runSeq line ++ "\t-"
+  else if line.startsWith "L " then LDrv.runLine line ++ "\t-"
   else if line.startsWith "X " then XDrv.runLine line ++ "\t-"
   else if line.startsWith "P " then SigDrv.runLine line ++ "\t-"
   else if line.startsWith "H " then
